@@ -1,15 +1,17 @@
 #!/bin/bash
-# MANIFEST.setup_cmd: build the Lean library parts that the claimed checks use and the
-# model driver, from files on disk only.  Modules of properties that are not claimed
-# (possibly under construction) are not built here and cannot fail the setup.
+# MANIFEST.setup_cmd: build the Lean library parts that the claimed checks use and their model
+# drivers (one executable uv_<id> per model), from files on disk only.  Modules of properties that
+# are not claimed (possibly under construction) are not built here and cannot fail the setup.
 V=$(cd "$(dirname "$0")/.." && pwd)
 cd "$V" || exit 2
 targets=$(python3 - <<'PY'
-import json
+import json, os
 m = json.load(open("MANIFEST.json"))
-print(" ".join("Uft.Props.%s" % c["property_id"] for c in m["checks"]))
+ids = [c["property_id"] for c in m["checks"]]
+t = ["Uft.Props.%s" % i for i in ids]
+en = [l.strip() for l in open("lean/Driver/enabled.txt") if l.strip() and not l.startswith("#")]
+t += ["uv_%s" % i for i in en if (i in ids or i == "Mcount") and os.path.exists("lean/Driver/%s.lean" % i)]
+print(" ".join(t))
 PY
 )
-tools/lk build $targets uvmodel && exit 0
-echo "setup: retrying with the claimed properties' drivers only" >&2
-VERIF_DISPATCH=claimed tools/lk build $targets uvmodel
+exec tools/lk build $targets
